@@ -1145,7 +1145,7 @@ def readStep (src : Src) (st : DState) (acc : Res (JObj × Cache)) (p : Str × R
 /-- the reconstruction at the end of `read` -/
 def readFinish (pool : JObj) (c : Cache) : Res (JVal × Cache) :=
   match objGet ROOT_ID pool with
-  | none => .panic "root_object_not_found"
+  | none => .err "root_object_not_found"
   | some rootObj =>
     match unflatten (unflattenFuel pool rootObj) pool rootObj with
     | .ok _ v => (match v with
